@@ -309,10 +309,42 @@ var numCarriers = []carrier{
 		c.SetStatic(n, &b)
 		return v
 	}},
+	// zero-padded decimal text is still decimal ("0100" is one hundred, not sixty-four)
+	{"string-padded", func(c *dyntpl.Ctx, n string, v float64) float64 {
+		t := strconv.FormatFloat(math.Abs(math.Trunc(v)), 'f', -1, 64)
+		s := "0" + t
+		if v < 0 {
+			s = "-0" + t
+		}
+		c.SetStatic(n, &s)
+		f, _ := strconv.ParseFloat(s, 64)
+		return f
+	}},
+	{"bytes-padded", func(c *dyntpl.Ctx, n string, v float64) float64 {
+		b := []byte("00" + strconv.FormatFloat(math.Abs(math.Trunc(v)), 'f', -1, 64))
+		c.SetStatic(n, &b)
+		f, _ := strconv.ParseFloat(string(b), 64)
+		return f
+	}},
+}
+
+// arithModelOp: the operations Model/Arith.v covers, by the number arith_bits knows them under.
+var arithModelOp = map[string]int{"math::add": 1, "math::sub": 2, "math::mul": 3, "math::div": 4, "math::abs": 5, "math::inc": 6, "math::dec": 7, "math::sqrt": 8, "math::max": 9, "math::min": 10}
+
+type arithObs struct {
+	op      int
+	a, b    uint64
+	got     uint64
+	src     string
+	va, vb  float64
+	printed string
 }
 
 func runArith(o *Options, res *Result, rng *RNG) {
-	vals := []float64{0, 1, -1, 2, 16, 0.5, -7.25, 10, 100, 3, 1e6, 27, 255}
+	vals := []float64{0, 1, -1, 2, 16, 0.5, -7.25, 10, 100, 3, 1e6, 27, 255,
+		// values at which float64 arithmetic rounds, overflows or loses a digit
+		0.1, 0.2, 0.3, 1.0 / 3, 1e15 + 0.3, 9007199254740992, 9007199254740993, 4503599627370497.5, 1e308, -1e308, 5e-324, 2.2250738585072014e-308, 1e-320, 123456789.123456789, 77, 100, 64}
+	var mobs []arithObs
 	n := 600
 	if o.Tier == "thorough" {
 		n = 12000
@@ -357,6 +389,13 @@ func runArith(o *Options, res *Result, rng *RNG) {
 		obs := Render(key, ctx)
 		got, perr := strconv.ParseFloat(string(obs.Out), 64)
 		ok := obs.ErrClass() == "OK" && perr == nil && (got == want || (math.IsNaN(got) && math.IsNaN(want)))
+		if mo, has := arithModelOp[op.Name]; has && obs.ErrClass() == "OK" && perr == nil {
+			ma, mb := fa, fb
+			if isMinMax {
+				ma, mb = fb, fa
+			}
+			mobs = append(mobs, arithObs{op: mo, a: math.Float64bits(ma), b: math.Float64bits(mb), got: math.Float64bits(got), src: src, va: va, vb: vb, printed: string(obs.Out)})
+		}
 		if ok {
 			res.Distinct(src + ca.Kind + cb.Kind + fmt.Sprint(va, vb))
 			continue
@@ -370,6 +409,78 @@ func runArith(o *Options, res *Result, rng *RNG) {
 			What:   fmt.Sprintf("%s with a=%v (%s) b=%v (%s): prints %q (%s %s) but %s on the float64 values is %v", src, va, ca.Kind, vb, cb.Kind, obs.Out, obs.ErrClass(), obs.Err, op.Name, strconv.FormatFloat(want, 'g', -1, 64)),
 			Replay: map[string]any{"template": src, "a": va, "a_kind": ca.Kind, "b": vb, "b_kind": cb.Kind, "observed": string(obs.Out), "expected": strconv.FormatFloat(want, 'g', -1, 64)}})
 	}
+	if err := runArithModel(o, res, mobs); err != nil {
+		res.InfraError = err.Error()
+	}
+}
+
+// runArithModel: Model/Arith.v (Flocq binary64) against what the engine printed, bit for bit
+// (NaN against NaN), plus the integer-to-float conversion on boundary integers.
+func runArithModel(o *Options, res *Result, mobs []arithObs) error {
+	if _, err := os.Stat(o.CoqDir + "/Model/Arith.vo"); err != nil {
+		res.Notes = appendCap(res.Notes, "Model/Arith.vo not built: arithmetic model correspondence skipped", 5)
+		return nil
+	}
+	if len(mobs) == 0 {
+		return nil
+	}
+	var items []string
+	for _, m := range mobs {
+		items = append(items, fmt.Sprintf("(%d%%N, %d%%Z, %d%%Z, %d%%Z)", m.op, m.a, m.b, m.got))
+	}
+	ints := []int64{0, 1, -1, 1 << 53, 1<<53 + 1, 1<<53 + 3, -(1<<53 + 1), math.MaxInt64, math.MinInt64, math.MaxInt64 - 1023, 1 << 62, 123456789012345678, 999999999999999999, math.MaxInt32, math.MinInt32}
+	var convs []string
+	for _, z := range ints {
+		convs = append(convs, fmt.Sprintf("((%d)%%Z, %d%%Z)", z, math.Float64bits(float64(z))))
+	}
+	for _, u := range []uint64{math.MaxUint64, 1 << 63, 1<<63 + 1025, 1<<64 - 1025} {
+		convs = append(convs, fmt.Sprintf("(%d%%Z, %d%%Z)", u, math.Float64bits(float64(u))))
+	}
+	var sb strings.Builder
+	sb.WriteString("From Coq Require Import ZArith List Bool.\nImport ListNotations.\nFrom DT Require Import Model.Round Model.Arith.\nLocal Open Scope Z_scope.\n")
+	sb.WriteString("Definition is_nan_bits (z : Z) : bool := (Z.land z 0x7FF0000000000000 =? 0x7FF0000000000000) && negb (Z.land z 0xFFFFFFFFFFFFF =? 0).\n")
+	sb.WriteString("Definition same (r : option Z) (g : Z) : bool := match r with Some x => (x =? g) || (is_nan_bits x && is_nan_bits g) | None => false end.\n")
+	fmt.Fprintf(&sb, "Definition cases : list (N * Z * Z * Z) := %s.\n", gList(items))
+	fmt.Fprintf(&sb, "Definition convs : list (Z * Z) := %s.\n", gList(convs))
+	sb.WriteString("Fixpoint mism (i : nat) (l : list (N * Z * Z * Z)) : list nat :=\n  match l with\n  | [] => []\n  | (o, a, b, g) :: r => if same (arith_bits o a b) g then mism (S i) r else i :: mism (S i) r\n  end.\n")
+	sb.WriteString("Fixpoint cmism (i : nat) (l : list (Z * Z)) : list nat :=\n  match l with\n  | [] => []\n  | (z, g) :: r => if to_bits (conv_int z) =? g then cmism (S i) r else i :: cmism (S i) r\n  end.\n")
+	sb.WriteString("Definition bad := Eval vm_compute in mism 0 cases.\nPrint bad.\nDefinition cbad := Eval vm_compute in cmism 0 convs.\nPrint cbad.\n")
+	dir := o.WorkDir + "/arith"
+	_ = os.MkdirAll(dir, 0o755)
+	file := dir + "/cases.v"
+	if err := os.WriteFile(file, []byte(sb.String()), 0o644); err != nil {
+		return err
+	}
+	out, err := exec.Command("timeout", "1200", "coqc", "-Q", o.CoqDir, "DT", "-Q", dir, "AR", file).CombinedOutput()
+	if err != nil {
+		return fmt.Errorf("coqc on %s: %v\n%s", file, err, tail(string(out), 1200))
+	}
+	text := string(out)
+	k, kc := strings.Index(text, "bad ="), strings.Index(text, "cbad =")
+	if k < 0 || kc < 0 {
+		return fmt.Errorf("arithmetic model: no result in coqc output")
+	}
+	res.ModelEvals += len(mobs) + len(convs)
+	res.Histogram["arith-model:cases"] += len(mobs)
+	for _, m := range regexp.MustCompile(`\d+`).FindAllString(text[k:kc], -1) {
+		var i int
+		fmt.Sscan(m, &i)
+		if i < 0 || i >= len(mobs) {
+			continue
+		}
+		c := mobs[i]
+		res.Mismatches++
+		res.AddViolation(&Violation{Kind: "no-failing-input-found", Class: "correspondence:arith", Lemma: "correspondence math_op (Model/Arith.v, Flocq binary64) vs mod_math.go",
+			What:   fmt.Sprintf("%s with a=%v b=%v prints %q; the binary64 model of the operation on the converted operands gives different bits", c.src, c.va, c.vb, c.printed),
+			Replay: map[string]any{"template": c.src, "a": c.va, "b": c.vb, "a_bits": c.a, "b_bits": c.b, "observed": c.printed, "observed_bits": c.got}})
+	}
+	for _, m := range regexp.MustCompile(`\d+`).FindAllString(text[kc+6:], -1) {
+		res.Mismatches++
+		res.AddViolation(&Violation{Kind: "no-failing-input-found", Class: "correspondence:conv", Lemma: "correspondence conv_int (Model/Arith.v) vs Go's float64(int)",
+			What: "integer to float64 conversion differs between the model and Go at boundary case #" + m, Replay: map[string]any{"case": m}})
+	}
+	_ = os.RemoveAll(dir)
+	return nil
 }
 
 // ---- time formatting and adding
